@@ -96,13 +96,17 @@ fn replay_loop(
     for l in lines {
         let deco = l["opts"]["decorate"].as_str().unwrap_or("").to_owned();
         let twin = l["opts"]["twin_features"] == true;
-        let uni = json!({"u": l["universe"], "deco": deco, "twin": twin});
+        let same_steps = l["opts"]["same_steps"] == true;
+        let uni = json!({"u": l["universe"], "deco": deco, "twin": twin,
+                         "same_steps": same_steps});
         if cache.as_ref().is_none_or(|(u, _)| *u != uni) {
             let specs: Vec<universe::FeatureSpec> =
                 serde_json::from_value(l["universe"].clone()).unwrap();
             cache = Some((
                 uni.clone(),
-                if twin {
+                if same_steps {
+                    writers::Objects::new_same_steps(&specs)
+                } else if twin {
                     writers::Objects::new_twin_features(&specs)
                 } else if !deco.is_empty() {
                     writers::Objects::new_decorated(&specs, deco == "cdata")
